@@ -114,8 +114,9 @@ def _own_erank(Y):
 
 
 def _same_float(a, b):
+    """Equal AND finite: a NaN / inf report never counts as agreement (not even with a NaN / inf reference)."""
     a, b = float(a), float(b)
-    return a == b or (math.isnan(a) and math.isnan(b))
+    return a == b and math.isfinite(a)
 
 
 @clause('C05.cross.reproduce', funcs=FUNCS + ('maxvol.maxvol', 'maxvol.maxvol_rect'))
@@ -140,7 +141,7 @@ def reproduce(n, rho, r0, dr_min, dr_max, nswp, tseed, yseed, cache, vld):
     if info.get('stop') != 'nswp' or info.get('nswp') != nswp:
         return FAIL(f"stop {info.get('stop')} after {info.get('nswp')} sweeps, expected nswp after {nswp}")
     rel = np.linalg.norm(gen.dense(Y) - T) / np.linalg.norm(T)
-    if rel > 1e-8:
+    if not rel <= 1e-8:
         return FAIL(f'relative error {rel:.3e} > 1e-8; ranks {[G.shape[2] for G in Y[:-1]]}, evaluated {info["m"]}')
     if vld and not (0 <= info['e_vld'] <= 1e-8):
         return FAIL(f"reported e_vld {info['e_vld']:.3e} although the result equals the target")
@@ -274,7 +275,7 @@ def info_reports(n, rho, r0, dr_min, dr_max, nswp, tseed, yseed, cache, vld, end
     # --- effective rank
     if not _same_float(info['r'], teneva.erank(Y)):
         return FAIL(f"info['r'] {info['r']} != erank(result) {teneva.erank(Y)} (stop {stop})")
-    if abs(float(info['r']) - _own_erank(Y)) > 1e-9 * _own_erank(Y):
+    if not abs(float(info['r']) - _own_erank(Y)) <= 1e-9 * _own_erank(Y):       # (written so that NaN fails)
         return FAIL(f"info['r'] {info['r']} != own effective rank {_own_erank(Y)}")
     # --- validation error
     if I_vld is None:
@@ -287,7 +288,7 @@ def info_reports(n, rho, r0, dr_min, dr_max, nswp, tseed, yseed, cache, vld, end
         D = gen.dense(Y)
         own = np.linalg.norm(D[tuple(I_vld.T)] - y_vld) / np.linalg.norm(y_vld)
         scale = np.linalg.norm(gen.absdense(Y)[tuple(I_vld.T)]) / np.linalg.norm(y_vld)
-        if abs(info['e_vld'] - own) > 1e-12 * (1 + scale) + 1e-9 * own:
+        if not abs(info['e_vld'] - own) <= 1e-12 * (1 + scale) + 1e-9 * own:
             return FAIL(f"info['e_vld'] {info['e_vld']:.6e} != own dense evaluation {own:.6e}")
     # --- convergence value
     boundary = stop in ('nswp', 'cb', 'e', 'e_vld') and info['nswp'] == len(seen) and info['nswp'] > 0
@@ -308,15 +309,17 @@ def info_reports(n, rho, r0, dr_min, dr_max, nswp, tseed, yseed, cache, vld, end
     want = teneva.accuracy(Y, Yold)
     if info['nswp'] == 0:
         # Yold is only known through the nswp=0 run (same values, possibly another memory layout): tolerance
-        if abs(info['e'] - want) > 1e-9 * abs(want) + 1e-7:
+        if not abs(info['e'] - want) <= 1e-9 * abs(want) + 1e-7:
             return FAIL(f"info['e'] {info['e']} != accuracy(result, pre-iterated tensor) {want} (stop {stop})")
     elif not _same_float(info['e'], want):
         return FAIL(f"info['e'] {info['e']} != accuracy(result, previous sweep) {want} (stop {stop}, nswp {info['nswp']})")
     A, B = gen.dense(Y), gen.dense(Yold)
     nb = np.linalg.norm(B)
+    if not math.isfinite(float(info['e'])):
+        return FAIL(f"info['e'] {info['e']} is not finite (stop {stop})")
     if nb > 0 and info['e'] >= 0:
         own = np.linalg.norm(A - B) / nb
-        if abs(info['e'] - own) > 1e-6 * (1 + own):
+        if not abs(info['e'] - own) <= 1e-6 * (1 + own):
             return FAIL(f"info['e'] {info['e']:.6e} != own dense relative distance {own:.6e}")
     expected = {'nswp': ('nswp',), 'm': ('m', 'nswp'), 'func': ('func',), 'cb': ('cb',), 'e': ('e', 'nswp'),
                 'e_vld': ('e_vld', 'nswp')}[end]
